@@ -63,7 +63,8 @@ def _c07():
 
 def _c06():
     import gate as gk
-    return {"builders": [gk.build], "level": "other", "explanation": "type gate"}
+    import dispatchk as dk
+    return {"builders": [gk.build, dk.build], "level": "other", "explanation": "type gate"}
 
 
 def _c09():
